@@ -46,9 +46,20 @@ WRAPPERS = {
                   "\n local _ = o.x",
     "call-meta": "local o = setmetatable({}, {__call = function() BODY end})"
                  "\n o()",
-    "coroutine": "if coroutine == nil then error('no coroutine library') end\n"
-                 " local co = coroutine.create(function() BODY end)\n"
-                 " while true do coroutine.resume(co) end",
+    # the library by every route a module has (global, require, loader cache)
+    "coroutine": "local co_lib = coroutine\n"
+                 " if type(co_lib) ~= 'table' then local ok, m = pcall(require, "
+                 "'coroutine'); if ok then co_lib = m end end\n"
+                 " if type(co_lib) ~= 'table' then local ok, m = pcall("
+                 "_cached_mod, 'coroutine'); if ok then co_lib = m end end\n"
+                 " if type(co_lib) ~= 'table' then error('no coroutine library') end\n"
+                 " local co = co_lib.create(function() BODY end)\n"
+                 " while true do co_lib.resume(co) end",
+    "coroutine-wrap": "local co_lib = coroutine\n"
+                      " if type(co_lib) ~= 'table' then local ok, m = pcall("
+                      "require, 'coroutine'); if ok then co_lib = m end end\n"
+                      " if type(co_lib) ~= 'table' then error('no coroutine library') end\n"
+                      " co_lib.wrap(function() BODY end)()",
 }
 
 PRELUDES = {
@@ -180,7 +191,7 @@ def judge(body, wrapper, prelude, status, obs, el):
         out.append(({"kind": "exception", **base},
                     f"{prog}: expand raised {obs['exc']}"))
         return out
-    self_ending = BODIES[body][1] or (wrapper == "coroutine")
+    self_ending = BODIES[body][1] or wrapper.startswith("coroutine")
     if obs["elapsed"] > BOUND:
         out.append(({"kind": "late", **base},
                     f"{prog}: returned after {obs['elapsed']:.1f} s, bound "
